@@ -37,9 +37,19 @@ func NewNTLMAuth (database database.Database) (*NTLMAuth) {
         }
 }
 
-func (h *NTLMAuth) Authenticate(message *auth.NtlmRequest) (*auth.NtlmResponse, error) {
-	r := &auth.NtlmResponse{}
+func (h *NTLMAuth) Authenticate(message *auth.NtlmRequest) (r *auth.NtlmResponse, err error) {
+	r = &auth.NtlmResponse{}
 	r.Authenticated = false
+
+	// the message parsers index into the client supplied message by the lengths and
+	// offsets it declares: a malformed message must fail this request, not the service
+	defer func() {
+		if rec := recover(); rec != nil {
+			h.removeContext(message.Session)
+			r = &auth.NtlmResponse{}
+			err = fmt.Errorf("Malformed NTLM message: %v", rec)
+		}
+	}()
 
 	if message.Session == "" {
 		return r, errors.New("Invalid (empty) session specified")
@@ -50,7 +60,7 @@ func (h *NTLMAuth) Authenticate(message *auth.NtlmRequest) (*auth.NtlmResponse, 
 	}
 
 	c := h.getContext(message.Session)
-	err := c.Authenticate(message.NtlmMessage, r)
+	err = c.Authenticate(message.NtlmMessage, r)
 
 	// a context serves one authenticate attempt only: the server session caches the
 	// response keys of the first user it verified, so reusing it after a failed
